@@ -58,10 +58,12 @@ def part_inbreeding_probability(parts, Fx):
     for part in parts:
         if sum(part) != 0 and sum(part) != 2*len(part):
             p = (2 * part.count(2) + part.count(1))/(2*len(part))
-            alpha = p*((1.0-Fx)/Fx)
-            beta  = (1.0-p)*((1.0-Fx)/Fx)
-            
-            p00, p01, p11 = numpy.exp([dadi.Numerics.BetaBinomln(_,2,alpha,beta) for _ in range(2+1)])
+            # Genotype probabilities of one diploid under inbreeding Fx, i.e. the beta-binomial
+            # BetaBinom(k; 2, alpha, beta) with alpha = p*(1-Fx)/Fx, beta = (1-p)*(1-Fx)/Fx, in closed
+            # form. (Evaluating it through gammaln/betaln loses all precision as Fx -> 0.)
+            p00 = (1.0-p)**2 + Fx*p*(1.0-p)
+            p01 = 2*p*(1.0-p)*(1.0-Fx)
+            p11 = p**2 + Fx*p*(1.0-p)
             n, n00, n01, n11 = len(part), part.count(0), part.count(1), part.count(2)
             
             part_prob = numpy.append(part_prob, (factorial(n) / (factorial(n00) * factorial(n01) * factorial(n11))) * (p00 ** n00) * (p01 ** n01) * (p11 ** n11))
